@@ -228,3 +228,749 @@ Proof.
     destruct (verify_uris ct mh r) eqn:R; cbn [bind] in H; try discriminate.
     inversion H; subst. cbn. f_equal. now apply IH.
 Qed.
+
+(* ================================================================== 2. dictionaries with unique keys *)
+Definition keys {V} (d : list (pystr * V)) : list pystr := List.map fst d.
+
+Lemma assoc_none_notin {V} k (d : list (pystr * V)) : assoc k d = None <-> ~ In k (keys d).
+Proof.
+  induction d as [|[k2 v2] r IH]; cbn; [tauto|].
+  destruct (str_eqb k k2) eqn:E.
+  - apply str_eqb_eq in E. subst. split; [discriminate|]. intros H. exfalso. apply H. now left.
+  - apply str_eqb_neq in E. rewrite IH. split; intros H; [intros [C|C]; [congruence|tauto]|tauto].
+Qed.
+
+Lemma keys_aset {V} k (v : V) d : forall x, In x (keys (aset k v d)) <-> x = k \/ In x (keys d).
+Proof.
+  induction d as [|[k2 v2] r IH]; intros x; cbn; [intuition|].
+  destruct (str_eqb k k2) eqn:E; cbn.
+  - apply str_eqb_eq in E. subst. intuition.
+  - rewrite IH. intuition.
+Qed.
+Lemma nodup_aset {V} k (v : V) d : NoDup (keys d) -> NoDup (keys (aset k v d)).
+Proof.
+  induction d as [|[k2 v2] r IH]; cbn; intros H.
+  - constructor; [intros []|constructor].
+  - inversion H as [|? ? Hn Hr]; subst. destruct (str_eqb k k2) eqn:E; cbn.
+    + constructor; assumption.
+    + constructor; [|now apply IH]. intro C. apply keys_aset in C as [C|C]; [|contradiction].
+      subst. now rewrite str_eqb_refl in E.
+Qed.
+Lemma keys_filter_sub {V} (f : pystr * V -> bool) d x : In x (keys (List.filter f d)) -> In x (keys d).
+Proof.
+  induction d as [|a r IH]; cbn; [tauto|]. destruct (f a); cbn; intuition.
+Qed.
+Lemma nodup_filter {V} (f : pystr * V -> bool) d : NoDup (keys d) -> NoDup (keys (List.filter f d)).
+Proof.
+  induction d as [|a r IH]; cbn; intros H; [constructor|]. inversion H; subst.
+  destruct (f a); cbn; [constructor; [intro C; apply keys_filter_sub in C; contradiction|]|]; auto.
+Qed.
+Lemma keys_adel_sub {V} k (d : list (pystr * V)) x : In x (keys (adel k d)) -> In x (keys d).
+Proof.
+  induction d as [|[k2 v2] r IH]; cbn; [tauto|]. destruct (str_eqb k k2); cbn; intuition.
+Qed.
+Lemma nodup_adel {V} k (d : list (pystr * V)) : NoDup (keys d) -> NoDup (keys (adel k d)).
+Proof.
+  induction d as [|[k2 v2] r IH]; cbn; intros H; [constructor|]. inversion H; subst.
+  destruct (str_eqb k k2); cbn; [assumption|]. constructor; [|auto]. intro C. apply keys_adel_sub in C. contradiction.
+Qed.
+Lemma assoc_filter_keep {V} (f : pystr * V -> bool) k v (d : list (pystr * V)) :
+  assoc k d = Some v -> f (k, v) = true -> (forall k' v', str_eqb k k' = true -> f (k', v') = f (k, v')) ->
+  assoc k (List.filter f d) = Some v.
+Proof.
+  intros H Hf Hext. induction d as [|[k2 v2] r IH]; cbn in *; [discriminate|].
+  destruct (str_eqb k k2) eqn:E.
+  - inversion H; subst. rewrite (Hext k2 v E), Hf. cbn. now rewrite E.
+  - destruct (f (k2, v2)); cbn; [rewrite E|]; auto.
+Qed.
+
+(* ---- request_verify keeps every binding it does not add, and keeps keys unique ---- *)
+Lemma enc_alg_step_frame prefix x d' :
+  enc_alg_step prefix x = Ok d' ->
+  exists d, x = Ok d /\ (NoDup (keys d) -> NoDup (keys d'))
+            /\ forall k, k <> PS (prefix ++ "_enc") -> assoc k d' = assoc k d.
+Proof.
+  unfold enc_alg_step. destruct x as [d| |]; cbn [bind]; try discriminate. intros H. exists d. split; [reflexivity|].
+  destruct (has_key (PS (prefix ++ "_alg")) d && negb (has_key (PS (prefix ++ "_enc")) d)).
+  - destruct (_ && _) in H; inversion H; subst. split; [apply nodup_aset|].
+    intros k Hk. apply assoc_aset_other. congruence.
+  - destruct (_ && _) in H; inversion H; subst. split; auto.
+Qed.
+
+Definition enc_keys : list pystr :=
+  [PS "request_object_encryption_enc"; PS "id_token_encrypted_response_enc"; PS "userinfo_encrypted_response_enc"].
+
+Local Arguments enc_alg_step : simpl never.
+Lemma request_verify_frame d d' :
+  request_verify d = Ok d' ->
+  (exists v, assoc K_redirect_uris d = Some v /\ py_truthy v = true)
+  /\ (NoDup (keys d) -> NoDup (keys d'))
+  /\ forall k, ~ In k enc_keys -> assoc k d' = assoc k d.
+Proof.
+  unfold request_verify. intros H.
+  destruct (assoc K_redirect_uris d) as [v|] eqn:R; cbn in H; [|discriminate].
+  destruct (py_truthy v) eqn:T; cbn in H; [|discriminate].
+  split; [eauto|].
+  repeat match type of H with (if ?b then Err _ else _) = _ => destruct b; [discriminate|] end.
+  match type of H with (bind ?x _) = _ => destruct x as [d3| |] eqn:E3; cbn [bind] in H; try discriminate end.
+  match type of H with (if ?b then Err _ else _) = _ => destruct b; [discriminate|] end.
+  inversion H; subst d3. clear H.
+  apply enc_alg_step_frame in E3 as (d2 & E2 & N3 & F3).
+  apply enc_alg_step_frame in E2 as (d1 & E1 & N2 & F2).
+  apply enc_alg_step_frame in E1 as (d0 & E0 & N1 & F1).
+  inversion E0; subst d0.
+  split; [auto|].
+  intros k Hk. rewrite F3, F2, F1; [reflexivity| | |]; intro C; apply Hk; subst k; cbn; auto.
+Qed.
+
+(* ---- rm_blanks / filter_request / adel ---- *)
+Lemma rm_blanks_keep k v d : assoc k d = Some v -> py_truthy v = true -> assoc k (rm_blanks d) = Some v.
+Proof. intros H T. unfold rm_blanks. apply assoc_filter_keep; auto. Qed.
+
+Lemma keys_filter_request c d d' x : filter_request c d = Ok d' -> In x (keys d') -> In x (keys d).
+Proof.
+  revert d'. induction d as [|[k v] r IH]; intros d' H Hin; cbn in H.
+  - inversion H; subst. exact Hin.
+  - destruct (assoc k (c_support c)) as [sup|].
+    + destruct (match_claim c k v sup) as [v'| | |]; try discriminate.
+      * destruct (filter_request c r) as [r'| |]; cbn [bind] in H; try discriminate. inversion H; subst.
+        destruct (py_truthy v'); cbn in Hin; [destruct Hin as [<-|Hin]; [now left|]|]; right; eapply IH; eauto.
+      * right. eapply IH; eauto.
+    + destruct (filter_request c r) as [r'| |]; cbn [bind] in H; try discriminate. inversion H; subst.
+      cbn in Hin. destruct Hin as [<-|Hin]; [now left|]. right. eapply IH; eauto.
+Qed.
+Lemma nodup_filter_request c d d' : filter_request c d = Ok d' -> NoDup (keys d) -> NoDup (keys d').
+Proof.
+  revert d'. induction d as [|[k v] r IH]; intros d' H N; cbn in H.
+  - inversion H; subst. constructor.
+  - inversion N as [|? ? Hn Nr]; subst.
+    destruct (assoc k (c_support c)) as [sup|].
+    + destruct (match_claim c k v sup) as [v'| | |]; try discriminate.
+      * destruct (filter_request c r) as [r'| |] eqn:R; cbn [bind] in H; try discriminate. inversion H; subst.
+        destruct (py_truthy v'); [|now apply IH]. cbn. constructor; [|now apply IH].
+        intro C. apply Hn. eapply keys_filter_request; eauto.
+      * now apply IH.
+    + destruct (filter_request c r) as [r'| |] eqn:R; cbn [bind] in H; try discriminate. inversion H; subst.
+      cbn. constructor; [|now apply IH]. intro C. apply Hn. eapply keys_filter_request; eauto.
+Qed.
+(* a claim the provider does not negotiate passes the filter untouched *)
+Lemma filter_request_keep c d d' k : filter_request c d = Ok d' -> assoc k (c_support c) = None -> assoc k d' = assoc k d.
+Proof.
+  revert d'. induction d as [|[k2 v2] r IH]; intros d' H S; cbn in H.
+  - inversion H; reflexivity.
+  - destruct (str_eqb k k2) eqn:E.
+    + apply str_eqb_eq in E. subst k2. rewrite S in H.
+      destruct (filter_request c r) as [r'| |]; cbn [bind] in H; try discriminate. inversion H; subst.
+      cbn. now rewrite str_eqb_refl.
+    + cbn [assoc]. rewrite E.
+      destruct (assoc k2 (c_support c)) as [sup|].
+      * destruct (match_claim c k2 v2 sup) as [v'| | |]; try discriminate.
+        -- destruct (filter_request c r) as [r'| |] eqn:R; cbn [bind] in H; try discriminate. inversion H; subst.
+           destruct (py_truthy v'); cbn; [rewrite E|]; now apply IH.
+        -- now apply IH.
+      * destruct (filter_request c r) as [r'| |] eqn:R; cbn [bind] in H; try discriminate. inversion H; subst.
+        cbn. rewrite E. now apply IH.
+Qed.
+(* a negotiated claim that survives the filter lies within the provider's support *)
+Definition within_support (v : pyval) (sup : list pystr) : Prop :=
+  match v with
+  | VStr s => In s sup
+  | VList l => exists ss, strs_of l = Some ss /\ forall s, In s ss -> In s sup
+  | _ => False
+  end.
+Lemma in_insert_sorted s x l : In x (insert_sorted s l) -> x = s \/ In x l.
+Proof.
+  induction l as [|y r IH]; cbn; [intuition|].
+  destruct (str_eqb s y); [cbn; intuition|]. destruct (str_leb s y); cbn; intuition.
+Qed.
+Lemma in_sort_dedup x l : In x (sort_dedup l) -> In x l.
+Proof.
+  induction l as [|y r IH]; cbn; [tauto|]. intros H. apply in_insert_sorted in H as [->|H]; auto.
+Qed.
+Lemma strs_of_map_VStr l : strs_of (List.map VStr l) = Some l.
+Proof. induction l as [|x r IH]; cbn; [reflexivity|]. now rewrite IH. Qed.
+Lemma match_claim_within c k v sup v' : match_claim c k v sup = MKeep v' -> within_support v' sup.
+Proof.
+  unfold match_claim. destruct (negb (str_in k (c_resp_keys c))); [discriminate|].
+  destruct (negb (nonempty sup)); [discriminate|].
+  destruct (str_in k (c_listy c)).
+  - destruct v as [| | |s|l| |]; try discriminate.
+    + destruct (str_in s sup) eqn:E; [|discriminate]. intros H; inversion H; subst. cbn. now apply str_in_In.
+    + destruct (strs_of l) as [ss|]; [|discriminate].
+      destruct (sort_dedup (List.filter (fun s => str_in s sup) ss)) as [|a r] eqn:E; [discriminate|].
+      intros H; inversion H; subst. cbn [within_support]. exists (a :: r). split; [apply (strs_of_map_VStr (a :: r))|].
+      intros s Hs. rewrite <- E in Hs. apply in_sort_dedup in Hs. apply filter_In in Hs as [_ Hs]. now apply str_in_In.
+  - destruct v as [| | |s| | |]; try discriminate.
+    destruct (str_in s sup) eqn:E; [|discriminate]. intros H; inversion H; subst. cbn. now apply str_in_In.
+Qed.
+Lemma filter_request_within c d d' k v sup :
+  filter_request c d = Ok d' -> NoDup (keys d) -> assoc k (c_support c) = Some sup -> assoc k d' = Some v ->
+  within_support v sup.
+Proof.
+  revert d'. induction d as [|[k2 v2] r IH]; intros d' H N S A; cbn in H.
+  - inversion H; subst. discriminate.
+  - inversion N as [|? ? Hn Nr]; subst.
+    destruct (str_eqb k k2) eqn:E.
+    + apply str_eqb_eq in E. subst k2. rewrite S in H.
+      destruct (match_claim c k v2 sup) as [v'| | |] eqn:M; try discriminate.
+      * destruct (filter_request c r) as [r'| |] eqn:R; cbn [bind] in H; try discriminate. inversion H; subst.
+        destruct (py_truthy v').
+        -- cbn in A. rewrite str_eqb_refl in A. inversion A; subst. eapply match_claim_within; eauto.
+        -- exfalso. assert (assoc k r' = None) as C; [|congruence].
+           apply assoc_none_notin. intro C. apply Hn. eapply keys_filter_request; eauto.
+      * exfalso. assert (assoc k d' = None) as C; [|congruence].
+        apply assoc_none_notin. intro C. apply Hn. eapply keys_filter_request; eauto.
+    + destruct (assoc k2 (c_support c)) as [sup2|].
+      * destruct (match_claim c k2 v2 sup2) as [v'| | |]; try discriminate.
+        -- destruct (filter_request c r) as [r'| |] eqn:R; cbn [bind] in H; try discriminate. inversion H; subst.
+           destruct (py_truthy v'); [cbn in A; rewrite E in A|]; eapply IH; eauto.
+        -- eapply IH; eauto.
+      * destruct (filter_request c r) as [r'| |] eqn:R; cbn [bind] in H; try discriminate. inversion H; subst.
+        cbn in A. rewrite E in A. eapply IH; eauto.
+Qed.
+
+(* ---- copy_request on a dictionary with unique keys ---- *)
+Lemma copy_request_plain req : forall c k,
+  NoDup (keys req) -> str_in k reserved_keys = false -> str_in k ignore_keys = false ->
+  assoc k (copy_request req c) = match assoc k req with Some v => Some v | None => assoc k c end.
+Proof.
+  induction req as [|[k2 v2] r IH]; intros c k N R I; cbn [copy_request assoc]; [reflexivity|].
+  inversion N as [|? ? Hn Nr]; subst.
+  destruct (str_eqb k k2) eqn:E.
+  - apply str_eqb_eq in E. subst k2. unfold copy_key. rewrite R, I. cbn [andb negb].
+    rewrite IH by assumption.
+    assert (assoc k r = None) as -> by now apply assoc_none_notin. apply assoc_aset_same.
+  - rewrite IH by assumption. destruct (assoc k r); [reflexivity|].
+    destruct (copy_key k2 c); [|reflexivity]. apply assoc_aset_other. apply str_eqb_neq in E. congruence.
+Qed.
+(* what the provider assigned is not for the request to choose *)
+Lemma copy_request_reserved req : forall c k,
+  str_in k reserved_keys = true -> has_key k c = true -> assoc k (copy_request req c) = assoc k c.
+Proof.
+  induction req as [|[k2 v2] r IH]; intros c k R Hk; cbn [copy_request]; [reflexivity|].
+  destruct (copy_key k2 c) eqn:CK; [|now apply IH].
+  destruct (str_eqb k k2) eqn:E.
+  - apply str_eqb_eq in E. subst k2. unfold copy_key in CK. rewrite R, Hk in CK. discriminate.
+  - rewrite IH; [|assumption|now apply has_key_aset_mono]. apply assoc_aset_other. apply str_eqb_neq in E. congruence.
+Qed.
+(* the ignore list is really skipped *)
+Lemma copy_request_ignored req : forall c k, str_in k ignore_keys = true -> assoc k (copy_request req c) = assoc k c.
+Proof.
+  induction req as [|[k2 v2] r IH]; intros c k I; cbn [copy_request]; [reflexivity|].
+  destruct (copy_key k2 c) eqn:CK; [|now apply IH]. rewrite IH by assumption.
+  apply assoc_aset_other. intro C. subst k2. unfold copy_key in CK. rewrite I in CK.
+  rewrite andb_false_r in CK. discriminate.
+Qed.
+
+(* ================================================================== 3. do_client_registration *)
+Definition frame1 (K : pystr) (c c' : dict) : Prop := forall k, k <> K -> assoc k c' = assoc k c.
+
+Ltac break_match H :=
+  repeat match type of H with
+         | context [match ?x with _ => _ end] => destruct x eqn:?; try discriminate
+         end.
+Ltac frame_done :=
+  match goal with
+  | H : DOk _ = DOk _ |- _ => inversion H; subst; clear H
+  end;
+  intros k Hk;
+  first [ reflexivity | apply assoc_aset_other; congruence | apply assoc_adel_other; congruence ].
+
+Lemma step_post_logout_frame req c c' : step_post_logout req c = DOk c' -> frame1 K_post_logout c c'.
+Proof. unfold step_post_logout, lift_res. intros H. break_match H; frame_done. Qed.
+Lemma step_redirect_uris_frame req c c' : step_redirect_uris req c = DOk c' -> frame1 K_redirect_uris c c'.
+Proof. unfold step_redirect_uris. intros H. break_match H; frame_done. Qed.
+Lemma step_request_uris_frame req c c' : step_request_uris req c = DOk c' -> frame1 K_request_uris c c'.
+Proof. unfold step_request_uris, lift_res. intros H. break_match H; frame_done. Qed.
+Lemma step_sector_id req c c' : step_sector req c = DOk c' -> c' = c.
+Proof. unfold step_sector. intros H. break_match H. now inversion H. Qed.
+Lemma step_uri_item_frame item req c c' : step_uri_item item req c = DOk c' -> frame1 item c c'.
+Proof. unfold step_uri_item, lift_res. intros H. break_match H; frame_done. Qed.
+Lemma step_sig_alg_frame cf item req c c' : step_sig_alg cf item req c = DOk c' -> frame1 item c c'.
+Proof. unfold step_sig_alg. intros H. break_match H; frame_done. Qed.
+
+(* the keys do_client_registration may rewrite after the plain copy *)
+Definition touched : list pystr :=
+  [K_post_logout; K_redirect_uris; K_request_uris; K_policy_uri; K_logo_uri; K_tos_uri; K_idt_sig; K_ui_sig].
+
+Lemma str_in_false_neq k l K : str_in k l = false -> In K l -> k <> K.
+Proof. intros H Hin E. subst. assert (str_in K l = true) by now apply str_in_In. congruence. Qed.
+
+Lemma dcr_inv c req stub j cinfo :
+  do_client_registration c req stub j = DOk cinfo ->
+  exists c1 c2 c3 c5 c6 c7 c8,
+    step_post_logout req (copy_request req stub) = DOk c1 /\ step_redirect_uris req c1 = DOk c2
+    /\ step_request_uris req c2 = DOk c3 /\ step_uri_item K_policy_uri req c3 = DOk c5
+    /\ step_uri_item K_logo_uri req c5 = DOk c6 /\ step_uri_item K_tos_uri req c6 = DOk c7
+    /\ step_sig_alg c K_idt_sig req c7 = DOk c8 /\ step_sig_alg c K_ui_sig req c8 = DOk cinfo /\ j = true.
+Proof.
+  unfold do_client_registration. intros H.
+  destruct (step_post_logout req (copy_request req stub)) as [c1| | |] eqn:E1; cbn [dcr_bind] in H; try discriminate.
+  destruct (step_redirect_uris req c1) as [c2| | |] eqn:E2; cbn [dcr_bind] in H; try discriminate.
+  destruct (step_request_uris req c2) as [c3| | |] eqn:E3; cbn [dcr_bind] in H; try discriminate.
+  destruct (step_sector req c3) as [c4| | |] eqn:E4; cbn [dcr_bind] in H; try discriminate.
+  apply step_sector_id in E4. subst c4.
+  destruct (step_uri_item K_policy_uri req c3) as [c5| | |] eqn:E5; cbn [dcr_bind] in H; try discriminate.
+  destruct (step_uri_item K_logo_uri req c5) as [c6| | |] eqn:E6; cbn [dcr_bind] in H; try discriminate.
+  destruct (step_uri_item K_tos_uri req c6) as [c7| | |] eqn:E7; cbn [dcr_bind] in H; try discriminate.
+  destruct (step_sig_alg c K_idt_sig req c7) as [c8| | |] eqn:E8; cbn [dcr_bind] in H; try discriminate.
+  destruct (step_sig_alg c K_ui_sig req c8) as [c9| | |] eqn:E9; cbn [dcr_bind] in H; try discriminate.
+  destruct j; [|discriminate]. inversion H; subst c9.
+  exists c1, c2, c3, c5, c6, c7, c8. repeat split; assumption.
+Qed.
+
+Lemma dcr_frame c req stub j cinfo k :
+  do_client_registration c req stub j = DOk cinfo -> str_in k touched = false ->
+  assoc k cinfo = assoc k (copy_request req stub).
+Proof.
+  intros H T. apply dcr_inv in H as (c1 & c2 & c3 & c5 & c6 & c7 & c8 & E1 & E2 & E3 & E5 & E6 & E7 & E8 & E9 & _).
+  assert (N : forall K, In K touched -> k <> K) by (intros K HK; eapply str_in_false_neq; eauto).
+  rewrite (step_sig_alg_frame _ _ _ _ _ E9) by (apply N; cbn; tauto).
+  rewrite (step_sig_alg_frame _ _ _ _ _ E8) by (apply N; cbn; tauto).
+  rewrite (step_uri_item_frame _ _ _ _ E7) by (apply N; cbn; tauto).
+  rewrite (step_uri_item_frame _ _ _ _ E6) by (apply N; cbn; tauto).
+  rewrite (step_uri_item_frame _ _ _ _ E5) by (apply N; cbn; tauto).
+  rewrite (step_request_uris_frame _ _ _ E3) by (apply N; cbn; tauto).
+  rewrite (step_redirect_uris_frame _ _ _ E2) by (apply N; cbn; tauto).
+  rewrite (step_post_logout_frame _ _ _ E1) by (apply N; cbn; tauto).
+  reflexivity.
+Qed.
+
+(* the stored redirect_uris are exactly what verify_redirect_uris admitted *)
+Lemma dcr_redirect c req stub j cinfo :
+  do_client_registration c req stub j = DOk cinfo -> has_key K_redirect_uris req = true ->
+  exists l, verify_redirect_uris req = Ok l /\ assoc K_redirect_uris cinfo = Some (VList (List.map pv_ruri l)).
+Proof.
+  intros H HK. apply dcr_inv in H as (c1 & c2 & c3 & c5 & c6 & c7 & c8 & E1 & E2 & E3 & E5 & E6 & E7 & E8 & E9 & _).
+  unfold step_redirect_uris in E2. rewrite HK in E2.
+  destruct (verify_redirect_uris req) as [l|e|] eqn:V; [|destruct e; discriminate|discriminate].
+  inversion E2; subst c2. exists l. split; [reflexivity|].
+  rewrite (step_sig_alg_frame _ _ _ _ _ E9) by (intro C; vm_compute in C; discriminate).
+  rewrite (step_sig_alg_frame _ _ _ _ _ E8) by (intro C; vm_compute in C; discriminate).
+  rewrite (step_uri_item_frame _ _ _ _ E7) by (intro C; vm_compute in C; discriminate).
+  rewrite (step_uri_item_frame _ _ _ _ E6) by (intro C; vm_compute in C; discriminate).
+  rewrite (step_uri_item_frame _ _ _ _ E5) by (intro C; vm_compute in C; discriminate).
+  rewrite (step_request_uris_frame _ _ _ E3) by (intro C; vm_compute in C; discriminate).
+  apply assoc_aset_same.
+Qed.
+
+(* ================================================================== 4. one registration *)
+Definition not_accepted (x : outcome) : Prop := forall cid r, x <> OAccepted cid r.
+
+Lemma pick_id_spec ids cdb cid : pick_id ids cdb = Ok cid -> In cid ids /\ has_key cid cdb = false.
+Proof.
+  induction ids as [|i r IH]; cbn; [discriminate|].
+  destruct (has_key i cdb) eqn:E.
+  - intros H. apply IH in H as [A B]. auto.
+  - intros H. inversion H; subst. auto.
+Qed.
+
+Inductive reg_result (c : cfg) (st : state) (o : reg_op) : state -> outcome -> Prop :=
+| RR_same x : not_accepted x -> reg_result c st o st x
+| RR_rollback cid x extra :
+    pick_id (r_ids o) (s_cdb st) = Ok cid -> not_accepted x ->
+    (extra = s_owners st \/ extra = add_owner cid (s_owners st)) ->
+    reg_result c st o
+      (rollback (mkSt (s_cdb (set_stub st c cid o (make_stub c cid o))) (s_rat (set_stub st c cid o (make_stub c cid o))) extra)
+                cid (make_stub c cid o)) x
+| RR_accept d0 d1 req0 cid cinfo resp :
+    request_verify (r_req o) = Ok d0 -> request_verify d0 = Ok d1 ->
+    filter_request c (rm_blanks d1) = Ok req0 ->
+    pick_id (r_ids o) (s_cdb st) = Ok cid ->
+    do_client_registration c (adel K_client_id req0) (make_stub c cid o) (r_jwks_loads o) = DOk cinfo ->
+    response_args c cinfo = Ok resp ->
+    reg_result c st o
+      (mkSt (aset cid cinfo (aset cid (make_stub c cid o) (s_cdb st)))
+            (match c_read c with Some _ => aset (r_rat o) cid (s_rat st) | None => s_rat st end)
+            (add_owner cid (s_owners st)))
+      (OAccepted cid resp).
+
+Lemma register_cases c st o st' x : register c st o = (st', x) -> reg_result c st o st' x.
+Proof.
+  unfold register. intros H.
+  assert (NA1 : not_accepted OParseRefused) by (intros ? ? C; discriminate).
+  assert (NA2 : not_accepted OUnm) by (intros ? ? C; discriminate).
+  assert (NA3 : forall e, not_accepted (ORefused e)) by (intros ? ? ? C; discriminate).
+  destruct (request_verify (r_req o)) as [d0| |] eqn:V0; [|inversion H; subst; now constructor..].
+  destruct (request_verify d0) as [d1| |] eqn:V1; [|inversion H; subst; now constructor..].
+  destruct (filter_request c (rm_blanks d1)) as [req0| |] eqn:F; [|inversion H; subst; now constructor..].
+  destruct (pick_id (r_ids o) (s_cdb st)) as [cid| |] eqn:P; [|inversion H; subst; now constructor..].
+  destruct (do_client_registration c (adel K_client_id req0) (make_stub c cid o) (r_jwks_loads o)) as [cinfo|code| |] eqn:D;
+    cbn [dcr_bind] in H; cbv beta in H.
+  - destruct (response_args c cinfo) as [resp| |] eqn:RA; cbv beta iota in H; try rewrite RA in H.
+    + inversion H; subst. cbn [set_stub s_cdb s_rat s_owners]. eapply RR_accept; eauto.
+    + inversion H; subst. eapply RR_rollback; eauto.
+    + inversion H; subst. now constructor.
+  - inversion H; subst. destruct st as [cdb rat ow]. eapply RR_rollback with (extra := ow); eauto.
+  - inversion H; subst. eapply RR_rollback; eauto.
+  - inversion H; subst. now constructor.
+Qed.
+
+Lemma stub_rat c cid o :
+  assoc K_rat (make_stub c cid o) = match c_read c with Some _ => Some (VStr (r_rat o)) | None => None end.
+Proof. unfold make_stub. destruct (c_read c); destruct (c_expires_in c) as [dt|]; [destruct (Z.eqb _ _)| |destruct (Z.eqb _ _)|]; reflexivity. Qed.
+Lemma stub_secret c cid o : assoc K_client_secret (make_stub c cid o) = Some (VStr (r_secret o)).
+Proof. unfold make_stub. destruct (c_read c); destruct (c_expires_in c) as [dt|]; [destruct (Z.eqb _ _)| |destruct (Z.eqb _ _)|]; reflexivity. Qed.
+Lemma stub_client_id c cid o : assoc K_client_id (make_stub c cid o) = Some (VStr cid).
+Proof. reflexivity. Qed.
+
+(* ---- a refusal leaves nothing behind ---- *)
+Lemma rollback_restores c st o cid extra :
+  pick_id (r_ids o) (s_cdb st) = Ok cid ->
+  assoc (r_rat o) (s_rat st) = None ->
+  str_in cid (s_owners st) = false ->
+  (extra = s_owners st \/ extra = add_owner cid (s_owners st)) ->
+  rollback (mkSt (s_cdb (set_stub st c cid o (make_stub c cid o))) (s_rat (set_stub st c cid o (make_stub c cid o))) extra)
+           cid (make_stub c cid o) = st.
+Proof.
+  intros P FR NO EX. apply pick_id_spec in P as [_ P]. apply has_key_false in P.
+  destruct st as [cdb rat ow]. unfold rollback, set_stub. cbn [s_cdb s_rat s_owners] in *.
+  rewrite stub_rat. f_equal.
+  - now apply adel_aset_fresh.
+  - destruct (c_read c); [|reflexivity]. rewrite has_key_aset_same. now apply adel_aset_fresh.
+  - destruct EX as [->| ->]; [now apply del_owner_absent|now apply del_add_owner].
+Qed.
+
+Lemma register_reject_unchanged c st o st' x :
+  register c st o = (st', x) -> not_accepted x ->
+  assoc (r_rat o) (s_rat st) = None ->
+  (forall i, In i (r_ids o) -> str_in i (s_owners st) = true -> has_key i (s_cdb st) = true) ->
+  st' = st.
+Proof.
+  intros H NA FR OW. apply register_cases in H. destruct H as [x _|cid x extra P _ EX|]; [reflexivity| |].
+  - apply rollback_restores; auto. pose proof (pick_id_spec _ _ _ P) as [I K].
+    destruct (str_in cid (s_owners st)) eqn:E; [|reflexivity]. rewrite (OW cid I E) in K. discriminate.
+  - exfalso. eapply NA. reflexivity.
+Qed.
+
+(* ---- what an accepted registration stores ---- *)
+Lemma reserved_not_touched k : str_in k reserved_keys = true -> str_in k touched = false.
+Proof.
+  intros H. apply str_in_In in H. cbn in H.
+  repeat (destruct H as [<-|H]; [reflexivity|]). contradiction.
+Qed.
+
+Lemma register_accept_stored c st o st' cid resp :
+  register c st o = (st', OAccepted cid resp) ->
+  exists cinfo,
+    assoc cid (s_cdb st') = Some cinfo /\ response_args c cinfo = Ok resp
+    /\ has_key cid (s_cdb st) = false /\ In cid (r_ids o)
+    /\ assoc K_client_id cinfo = Some (VStr cid)
+    /\ assoc K_client_secret cinfo = Some (VStr (r_secret o))
+    /\ (forall path, c_read c = Some path ->
+          assoc K_rat cinfo = Some (VStr (r_rat o)) /\ assoc (r_rat o) (s_rat st') = Some cid).
+Proof.
+  intros H. apply register_cases in H.
+  inversion H as [x NA|? x extra P NA EX|d0 d1 req0 cid' cinfo resp' V0 V1 F P D RA]; subst.
+  - exfalso. eapply NA. reflexivity.
+  - exfalso. eapply NA. reflexivity.
+  - exists cinfo. cbn [s_cdb s_rat]. pose proof (pick_id_spec _ _ _ P) as [I K].
+    split; [apply assoc_aset_same|]. split; [assumption|]. split; [assumption|]. split; [assumption|].
+    assert (R : forall k, str_in k reserved_keys = true -> has_key k (make_stub c cid o) = true ->
+                          assoc k cinfo = assoc k (make_stub c cid o)).
+    { intros k Rk Hk. rewrite (dcr_frame _ _ _ _ _ k D) by now apply reserved_not_touched.
+      now apply copy_request_reserved. }
+    split; [rewrite R; [apply stub_client_id|reflexivity|reflexivity]|].
+    split; [rewrite R; [apply stub_secret|reflexivity|apply has_key_true; eexists; apply stub_secret]|].
+    intros path HP. rewrite HP. split; [|apply assoc_aset_same].
+    rewrite R; [rewrite stub_rat, HP; reflexivity|reflexivity|].
+    apply has_key_true. eexists. rewrite stub_rat, HP. reflexivity.
+Qed.
+
+(* ================================================================== 5. the stored record obeys the rule *)
+Lemma enc_keys_not k : In k [K_redirect_uris; K_application_type; K_response_types; K_client_id] -> ~ In k enc_keys.
+Proof.
+  intros H C. cbn in H. cbn in C.
+  repeat (destruct H as [<-|H]; [repeat (destruct C as [C|C]; [vm_compute in C; discriminate|]); contradiction|]).
+  contradiction.
+Qed.
+
+(* the request the provider decides on (after verify, rm_blanks, filter, removal of client_id) *)
+Lemma decided_request_facts c o d0 d1 req0 :
+  request_verify (r_req o) = Ok d0 -> request_verify d0 = Ok d1 -> filter_request c (rm_blanks d1) = Ok req0 ->
+  NoDup (keys (r_req o)) -> assoc K_redirect_uris (c_support c) = None ->
+  NoDup (keys (adel K_client_id req0))
+  /\ assoc K_redirect_uris (adel K_client_id req0) = assoc K_redirect_uris (r_req o)
+  /\ has_key K_redirect_uris (adel K_client_id req0) = true.
+Proof.
+  intros V0 V1 F N S.
+  apply request_verify_frame in V0 as ((v & Hv & Tv) & N0 & F0).
+  apply request_verify_frame in V1 as (_ & N1 & F1).
+  split; [apply nodup_adel; eapply nodup_filter_request; eauto; apply nodup_filter; auto|].
+  assert (A : assoc K_redirect_uris (adel K_client_id req0) = Some v).
+  { rewrite assoc_adel_other by (intro C; vm_compute in C; discriminate).
+    rewrite (filter_request_keep _ _ _ _ F S). apply rm_blanks_keep; [|assumption].
+    rewrite F1, F0; [assumption| |]; apply enc_keys_not; cbn; tauto. }
+  split; [congruence|]. apply has_key_true. eauto.
+Qed.
+
+Lemma client_type_ext a b : assoc K_application_type a = assoc K_application_type b -> client_type a = client_type b.
+Proof. unfold client_type, req_str. now intros ->. Qed.
+Lemma req_rts_ext a b : assoc K_response_types a = assoc K_response_types b -> req_rts a = req_rts b.
+Proof. unfold req_rts, req_strs. now intros ->. Qed.
+
+Lemma stub_lacks c cid o k : str_in k reserved_keys = false -> assoc k (make_stub c cid o) = None.
+Proof.
+  intros H. apply assoc_none_notin. intro C. apply not_true_iff_false in H. apply H. apply str_in_In.
+  unfold make_stub, keys in C. rewrite !map_app in C. rewrite !in_app_iff in C. cbn.
+  destruct C as [C|[C|[C|C]]].
+  - cbn in C. tauto.
+  - destruct (c_read c); cbn in C; tauto.
+  - cbn in C. tauto.
+  - destruct (c_expires_in c) as [dt|]; [destruct (Z.eqb _ _)|]; cbn in C; tauto.
+Qed.
+
+Theorem redirect_rule_stored c st o st' cid resp :
+  assoc K_redirect_uris (c_support c) = None ->
+  NoDup (keys (r_req o)) ->
+  register c st o = (st', OAccepted cid resp) ->
+  exists cinfo uris stored,
+    assoc cid (s_cdb st') = Some cinfo
+    /\ req_strs K_redirect_uris (r_req o) = Some uris
+    /\ assoc K_redirect_uris cinfo = Some (VList stored) /\ List.length stored = List.length uris
+    /\ Forall (uri_obeys_rule cinfo) uris.
+Proof.
+  intros S N H. apply register_cases in H.
+  inversion H as [x NA|? x extra P NA EX|d0 d1 req0 cid' cinfo resp' V0 V1 F P D RA]; subst;
+    try (exfalso; eapply NA; reflexivity).
+  destruct (decided_request_facts _ _ _ _ _ V0 V1 F N S) as (Nr & Ar & Hr).
+  set (req := adel K_client_id req0) in *.
+  destruct (dcr_redirect _ _ _ _ _ D Hr) as (l & Vl & Sl).
+  destruct (verify_redirect_uris_rule _ _ Vl) as (uris & Hu & Fu & Len).
+  exists cinfo, uris, (List.map pv_ruri l). cbn [s_cdb].
+  split; [apply assoc_aset_same|]. split; [unfold req_strs in *; now rewrite <- Ar|].
+  split; [assumption|]. split; [now rewrite map_length|].
+  (* the stored application_type / response_types are those the decision was made on *)
+  assert (T : forall k, str_in k reserved_keys = false -> str_in k ignore_keys = false -> str_in k touched = false ->
+                        assoc k cinfo = assoc k req).
+  { intros k R I T. rewrite (dcr_frame _ _ _ _ _ k D T). rewrite copy_request_plain by assumption.
+    rewrite stub_lacks by assumption. now destruct (assoc k req). }
+  assert (CT : client_type cinfo = client_type req) by (apply client_type_ext, T; reflexivity).
+  assert (RT : req_rts cinfo = req_rts req) by (apply req_rts_ext, T; reflexivity).
+  eapply Forall_impl; [|exact Fu]. intros u (p & Up & Rp). exists p. split; [assumption|]. now rewrite CT, RT.
+Qed.
+
+(* negotiated metadata that is stored lies within what the provider supports *)
+Theorem stored_within_support c st o st' cid resp k sup v :
+  NoDup (keys (r_req o)) ->
+  register c st o = (st', OAccepted cid resp) ->
+  assoc k (c_support c) = Some sup ->
+  str_in k reserved_keys = false -> str_in k ignore_keys = false -> str_in k touched = false ->
+  forall cinfo, assoc cid (s_cdb st') = Some cinfo -> assoc k cinfo = Some v -> within_support v sup.
+Proof.
+  intros N H S R I T cinfo' Hc Hv. apply register_cases in H.
+  inversion H as [x NA|? x extra P NA EX|d0 d1 req0 cid' cinfo resp' V0 V1 F P D RA]; subst;
+    try (exfalso; eapply NA; reflexivity).
+  cbn [s_cdb] in Hc. rewrite assoc_aset_same in Hc. inversion Hc; subst cinfo'.
+  rewrite (dcr_frame _ _ _ _ _ k D T) in Hv.
+  apply request_verify_frame in V0 as (_ & N0 & _). apply request_verify_frame in V1 as (_ & N1 & _).
+  assert (Nf : NoDup (keys req0)) by (eapply nodup_filter_request; eauto; apply nodup_filter; auto).
+  rewrite copy_request_plain in Hv by (try apply nodup_adel; assumption).
+  rewrite stub_lacks in Hv by assumption.
+  destruct (assoc k (adel K_client_id req0)) as [v'|] eqn:A; [|discriminate]. inversion Hv; subst v'.
+  destruct (str_eqb K_client_id k) eqn:E.
+  - apply str_eqb_eq in E. subst k. discriminate.
+  - apply str_eqb_neq in E. rewrite assoc_adel_other in A by assumption.
+    eapply filter_request_within; eauto. apply nodup_filter; auto.
+Qed.
+
+(* ================================================================== 6. histories *)
+Lemma read_frame c st h q now st' x :
+  read c st h q now = (st', x) ->
+  s_rat st' = s_rat st /\ s_owners st' = s_owners st /\ (forall k, has_key k (s_cdb st) = true -> has_key k (s_cdb st') = true).
+Proof.
+  unfold read. intros H.
+  repeat match type of H with
+         | context [match ?t with _ => _ end] => destruct t eqn:?
+         end; inversion H; subst; cbn [s_rat s_owners s_cdb]; repeat split; auto; intros; now apply has_key_aset_mono.
+Qed.
+
+Lemma register_keys_mono c st o st' x k :
+  register c st o = (st', x) -> has_key k (s_cdb st) = true -> has_key k (s_cdb st') = true.
+Proof.
+  intros H Hk. apply register_cases in H. destruct H as [x _|cid x extra P _ EX|]; [assumption| |].
+  - cbn [rollback s_cdb set_stub]. apply pick_id_spec in P as [_ P]. apply has_key_false in P.
+    now rewrite adel_aset_fresh.
+  - cbn [s_cdb]. now do 2 apply has_key_aset_mono.
+Qed.
+
+Lemma step_keys_mono c st o st' x k : step c st o = (st', x) -> has_key k (s_cdb st) = true -> has_key k (s_cdb st') = true.
+Proof.
+  destruct o as [r|h q now]; cbn [step].
+  - destruct (register c st r) as [s y] eqn:E. intros H. inversion H; subst. eapply register_keys_mono; eauto.
+  - destruct (read c st h q now) as [s y] eqn:E. intros H. inversion H; subst. apply read_frame in E as (_ & _ & M). auto.
+Qed.
+
+Lemma run_cons c st o r : run c st (o :: r) =
+  let '(s1, x) := step c st o in let '(s2, xs) := run c s1 r in (s2, x :: xs).
+Proof. reflexivity. Qed.
+
+Theorem unique_fresh_ids c ops : forall st st' outs,
+  run c st ops = (st', outs) ->
+  NoDup (assigned ops outs) /\ (forall i, In i (assigned ops outs) -> has_key i (s_cdb st) = false).
+Proof.
+  induction ops as [|o r IH]; intros st st' outs H.
+  - cbn in H. inversion H; subst. cbn. split; [constructor|tauto].
+  - rewrite run_cons in H. destruct (step c st o) as [s1 x] eqn:S. destruct (run c s1 r) as [s2 xs] eqn:R.
+    inversion H; subst. destruct (IH _ _ _ R) as [ND FR].
+    assert (MONO : forall i, In i (assigned r xs) -> has_key i (s_cdb st) = false).
+    { intros i Hi. specialize (FR i Hi). destruct (has_key i (s_cdb st)) eqn:E; [|reflexivity].
+      rewrite (step_keys_mono _ _ _ _ _ i S E) in FR. discriminate. }
+    destruct x as [[| |cid resp|]|y]; cbn [assigned]; try (split; assumption).
+    destruct o as [ro|h q now]; cbn [step] in S.
+    + destruct (register c st ro) as [s y] eqn:E. inversion S; subst.
+      destruct (register_accept_stored _ _ _ _ _ _ E) as (cinfo & A & _ & K & _).
+      split.
+      * constructor; [|assumption]. intro C. specialize (FR cid C).
+        assert (has_key cid (s_cdb s1) = true) by (apply has_key_true; eauto). congruence.
+      * intros i [<-|Hi]; auto.
+    + destruct (read c st h q now) as [s y]. inversion S.
+Qed.
+
+(* ---- registration tokens ---- *)
+Lemma register_rat_other c st o st' x t :
+  register c st o = (st', x) -> t <> r_rat o -> assoc t (s_rat st') = assoc t (s_rat st).
+Proof.
+  intros H Hne. apply register_cases in H. destruct H as [x _|cid x extra P _ EX|]; [reflexivity| |].
+  - cbn [rollback s_rat set_stub]. rewrite stub_rat. destruct (c_read c); [|reflexivity].
+    rewrite has_key_aset_same. rewrite assoc_adel_other by congruence. apply assoc_aset_other. congruence.
+  - cbn [s_rat]. destruct (c_read c); [|reflexivity]. apply assoc_aset_other. congruence.
+Qed.
+
+Lemma step_rat_other c st o st' x t :
+  step c st o = (st', x) -> (forall r, o = OpReg r -> t <> r_rat r) -> assoc t (s_rat st') = assoc t (s_rat st).
+Proof.
+  destruct o as [r|h q now]; cbn [step]; intros H Hne.
+  - destruct (register c st r) as [s y] eqn:E. inversion H; subst. eapply register_rat_other; eauto.
+  - destruct (read c st h q now) as [s y] eqn:E. inversion H; subst. apply read_frame in E as (-> & _). reflexivity.
+Qed.
+
+Lemma run_rat_other c ops : forall st st' outs t,
+  run c st ops = (st', outs) -> ~ In t (rat_draws ops) -> assoc t (s_rat st') = assoc t (s_rat st).
+Proof.
+  induction ops as [|o r IH]; intros st st' outs t H Hn.
+  - cbn in H. inversion H; subst. reflexivity.
+  - rewrite run_cons in H. destruct (step c st o) as [s1 x] eqn:S. destruct (run c s1 r) as [s2 xs] eqn:R.
+    inversion H; subst. rewrite (IH _ _ _ t R).
+    + eapply step_rat_other; eauto. intros ro ->. intro C. apply Hn. cbn. now left.
+    + intro C. apply Hn. destruct o; cbn; auto.
+Qed.
+
+Theorem issued_tokens_kept c ops : forall st st' outs,
+  run c st ops = (st', outs) ->
+  (exists path, c_read c = Some path) ->
+  NoDup (rat_draws ops) ->
+  forall t a, In (t, a) (issued ops outs) -> assoc t (s_rat st') = Some a.
+Proof.
+  induction ops as [|o r IH]; intros st st' outs H RD ND t a Hin.
+  - cbn in H. inversion H; subst. cbn in Hin. contradiction.
+  - rewrite run_cons in H. destruct (step c st o) as [s1 x] eqn:S. destruct (run c s1 r) as [s2 xs] eqn:R.
+    inversion H; subst. clear H.
+    destruct o as [ro|h q now].
+    + cbn [rat_draws] in ND. inversion ND as [|? ? Hnot ND']; subst.
+      cbn [step] in S. destruct (register c st ro) as [s y] eqn:E. inversion S; subst. clear S.
+      destruct y as [| |cid resp|]; cbn [issued] in Hin; try solve [eapply IH; eauto].
+      destruct Hin as [Heq|Hin]; [|solve [eapply IH; eauto]].
+      inversion Heq; subst. rewrite (run_rat_other _ _ _ _ _ _ R Hnot).
+      destruct RD as (path & RD).
+      destruct (register_accept_stored _ _ _ _ _ _ E) as (cinfo & _ & _ & _ & _ & _ & _ & T).
+      now destruct (T path RD).
+    + cbn [rat_draws] in ND. cbn [issued] in Hin. destruct x; eapply IH; eauto.
+Qed.
+
+(* ---- the read endpoint ---- *)
+Lemma read_answer_inv c st hdr q now st' cid resp :
+  read c st hdr q now = (st', RAnswer cid resp) ->
+  q = Some cid
+  /\ (exists h, hdr = Some h /\ starts_with S_Bearer_sp h = true /\ assoc (skipn 7 h) (s_rat st) = Some cid)
+  /\ (exists cinfo, assoc cid (s_cdb st) = Some cinfo /\ valid_client_secret cinfo now = true
+                    /\ assoc cid (s_cdb st') = Some (set_auth_method cinfo)
+                    /\ response_args c (set_auth_method cinfo) = Ok resp).
+Proof.
+  unfold read. intros H.
+  destruct hdr as [h|]; [|discriminate].
+  destruct (starts_with S_Bearer_sp h) eqn:B; cbn [negb] in H; [|discriminate].
+  destruct q as [x|].
+  - destruct (assoc (skipn 7 h) (s_rat st)) as [owner|] eqn:A; [|discriminate].
+    destruct (str_eqb x owner) eqn:E.
+    + apply str_eqb_eq in E. subst owner.
+      destruct (assoc x (s_cdb st)) as [cinfo|] eqn:C; [|discriminate].
+      destruct cinfo as [|e cr]; [discriminate|]. destruct x as [|x0 xr]; [discriminate|].
+      destruct (valid_client_secret (e :: cr) now) eqn:V; cbn [negb] in H; [|discriminate].
+      destruct (has_key K_ep_cam (e :: cr) || has_key K_cam (e :: cr)); [discriminate|].
+      destruct (response_args c (set_auth_method (e :: cr))) eqn:RA; try discriminate.
+      inversion H; subst. split; [reflexivity|]. split; [eauto|].
+      exists (e :: cr). cbn [s_cdb]. repeat split; auto. apply assoc_aset_same.
+    + destruct (assoc [] (s_cdb st)) as [cinfo|]; [|discriminate]. destruct cinfo; discriminate.
+  - destruct (assoc [] (s_cdb st)) as [cinfo|]; [|discriminate]. destruct cinfo; discriminate.
+Qed.
+
+Lemma filter_aset_out (f : pystr -> bool) k v (d : dict) :
+  f k = false -> (forall a b, str_eqb a b = true -> f a = f b) ->
+  List.filter (fun kv => f (fst kv)) (aset k v d) = List.filter (fun kv => f (fst kv)) d.
+Proof.
+  intros Hf Hext. induction d as [|[k2 v2] r IH]; cbn; [now rewrite Hf|].
+  destruct (str_eqb k k2) eqn:E; cbn.
+  - rewrite <- (Hext k k2 E), Hf. reflexivity.
+  - destruct (f k2); [f_equal|]; assumption.
+Qed.
+Lemma str_in_ext l a b : str_eqb a b = true -> str_in a l = str_in b l.
+Proof. intros E. apply str_eqb_eq in E. now subst. Qed.
+
+(* the read endpoint returns what registration returned for that record: bookkeeping of the
+   authentication method is invisible in the answer *)
+Lemma response_args_auth_method c cinfo :
+  str_in K_auth_method (c_resp_keys c) = false ->
+  response_args c (set_auth_method cinfo) = response_args c cinfo.
+Proof.
+  intros H. unfold response_args, set_auth_method.
+  assert (G : forall v, List.filter (fun kv => str_in (fst kv) (c_resp_keys c)) (aset K_auth_method v cinfo)
+                        = List.filter (fun kv => str_in (fst kv) (c_resp_keys c)) cinfo).
+  { intros v. apply (filter_aset_out (fun k => str_in k (c_resp_keys c))); [assumption|].
+    intros a b E. now apply str_in_ext. }
+  destruct (assoc K_auth_method cinfo) as [[| | | | |m|]|]; try (now rewrite G).
+  destruct m; now rewrite G.
+Qed.
+
+(* ================================================================== 7. statements used by Props/C19.v *)
+Theorem echo_registration c st o st' cid resp :
+  register c st o = (st', OAccepted cid resp) ->
+  exists cinfo, assoc cid (s_cdb st') = Some cinfo /\ response_args c cinfo = Ok resp.
+Proof. intros H. destruct (register_accept_stored _ _ _ _ _ _ H) as (cinfo & A & B & _). eauto. Qed.
+
+Theorem echo_read c st hdr q now st' cid resp :
+  str_in K_auth_method (c_resp_keys c) = false ->
+  read c st hdr q now = (st', RAnswer cid resp) ->
+  exists cinfo, assoc cid (s_cdb st) = Some cinfo /\ response_args c cinfo = Ok resp.
+Proof.
+  intros HK H. apply read_answer_inv in H as (_ & _ & cinfo & A & _ & _ & R).
+  rewrite response_args_auth_method in R by assumption. eauto.
+Qed.
+
+Lemma skip_bearer t : skipn 7 (S_Bearer_sp ++ t) = t.
+Proof. reflexivity. Qed.
+
+Theorem read_isolation c ops st st' outs :
+  run c st ops = (st', outs) ->
+  (exists path, c_read c = Some path) ->
+  NoDup (rat_draws ops) ->
+  forall t a, In (t, a) (issued ops outs) ->
+    assoc t (s_rat st') = Some a
+    /\ forall q now s2 cid resp,
+         read c st' (Some (S_Bearer_sp ++ t)) q now = (s2, RAnswer cid resp) -> cid = a /\ q = Some a.
+Proof.
+  intros R RD ND t a Hin. pose proof (issued_tokens_kept _ _ _ _ _ R RD ND t a Hin) as K.
+  split; [assumption|]. intros q now s2 cid resp H.
+  apply read_answer_inv in H as (Hq & (h & Hh & _ & A) & _).
+  inversion Hh; subst h. rewrite skip_bearer in A. rewrite K in A. inversion A; subst. auto.
+Qed.
+
+(* every pairing (token of A, client B <> A) is refused *)
+Corollary read_cross_refused c ops st st' outs t a b now :
+  run c st ops = (st', outs) -> (exists path, c_read c = Some path) -> NoDup (rat_draws ops) ->
+  In (t, a) (issued ops outs) -> b <> a ->
+  forall s2 x, read c st' (Some (S_Bearer_sp ++ t)) (Some b) now = (s2, x) -> forall cid resp, x <> RAnswer cid resp.
+Proof.
+  intros R RD ND Hin Hne s2 x H cid resp C. subst x.
+  destruct (read_isolation _ _ _ _ _ R RD ND t a Hin) as [_ G]. destruct (G _ _ _ _ _ H) as [_ Q]. congruence.
+Qed.
